@@ -676,6 +676,26 @@ func (x *Exec) evalCall(e gcl.Call, c *evalCtx) (typed, error) {
 	if e.Fun == "called" || e.Fun == "callres" {
 		return x.evalCallRef(e, c)
 	}
+	if e.Fun == "atloop" && len(e.Args) == 1 { // atloop(e): the value of e when the innermost enclosing loop was entered
+		var best *load.LoopInfo
+		if c.fr != nil && c.fr.cur != nil {
+			for _, li := range x.loopsOf(c.fr) {
+				if li.Header != c.fr.cur && !li.Body[c.fr.cur] {
+					continue
+				}
+				if best == nil || len(li.Body) < len(best.Body) {
+					best = li
+				}
+			}
+		}
+		if best == nil || c.st.loopEntry == nil || c.st.loopEntry[best.Header] == nil {
+			return typed{}, fmt.Errorf("atloop: the clause is not evaluated inside a loop")
+		}
+		c2 := *c
+		c2.st = c.st.loopEntry[best.Header]
+		c2.inOld = false
+		return x.evalTyped(e.Args[0], &c2)
+	}
 	if e.Fun == "asType" && len(e.Args) == 2 { // asType(TypeName, e): gives a sort-polymorphic spec value a Go type
 		gt := x.specParamType(e.Args[0].String(), c.pkg)
 		if gt == nil {
